@@ -927,6 +927,8 @@ func (hg *histGen) emitPattern() {
 var filterRegexps = []string{
 	`^e_`, `^w_`, `^n_`, `_crl_`, `zsimprobe`, `^$`, `.*`, `.`, `dnsname`, `^e_.*ca.*`, `[a-m]_`, `(?i)^E_`,
 	`san|ian`, `^[ew]_(sub|root)_`, `ocsp`, `_ext_`, `^e_zsimprobe_cert_(br|rfc)_`, `rsa`, `\d`, `^.{1,25}$`, `x$`,
+	// patterns that match every name with an empty leftmost match, or some names so
+	``, `^`, `$`, `\b`, `z*`, `(ocsp)?`, `(?i)Q*`, `^(e_)?`, `x*$`,
 }
 
 func decorate(g *RNG, n string) string {
